@@ -32,7 +32,7 @@ class Job:
 
     def __init__(self, rel, pkgname, harness, entry, params=None, flags=None, tag="", extra_overlay=None,
                  twin=False, load_dir=None, pkg_pattern=None, cost=1.0, expect_violation=None, only_kf=None,
-                 import_path=None, deadline=None):
+                 import_path=None, deadline=None, kf_ids=None):
         self.rel = rel                  # package directory relative to load_dir (e.g. util/container)
         self.pkgname = pkgname
         self.harness = harness if isinstance(harness, list) else [harness]   # files under /verif/harness or absolute
@@ -46,6 +46,7 @@ class Job:
         self.pkg_pattern = pkg_pattern or ("./" + rel)
         self.cost = cost
         self.only_kf = only_kf          # slug of the known finding this job confirms (violation expected)
+        self.kf_ids = kf_ids            # assertion ids / kinds the known finding explains (None = any); others are violations
         self.import_path = import_path or (MOD + "/" + rel)
         self.deadline = deadline        # seconds of wall clock for this entry (None = tier default)
         self.result = None
@@ -104,11 +105,11 @@ def build_tools(ctx):
 
 
 def run_shard(args):
-    symgo, gdir, idx, overlay_json, job0, jobspecs, timeout = args
+    symgo, gdir, idx, overlay_json, load_dir, patterns, flags, jobspecs, timeout = args
     jf = os.path.join(gdir, "jobs_%d.json" % idx)
     of = os.path.join(gdir, "out_%d.json" % idx)
     json.dump(jobspecs, open(jf, "w"))
-    cmd = [symgo, "-dir", job0.load_dir, "-overlay", overlay_json, "-pkg", job0.pkg_pattern, "-jobs", jf, "-out", of] + job0.flags
+    cmd = [symgo, "-dir", load_dir, "-overlay", overlay_json, "-pkg", patterns, "-jobs", jf, "-out", of] + flags
     t0 = time.time()
     try:
         r = subprocess.run(cmd, env=goenv(), capture_output=True, text=True, timeout=timeout)
@@ -125,42 +126,67 @@ def run_shard(args):
 
 
 def run_jobs(ctx, jobs, timeout=3000):
-    """Runs all jobs; fills job.result (dict) or job.error."""
+    """Runs all jobs; fills job.result (dict) or job.error. Jobs that agree on (load_dir, flags) are bin-packed into
+    at most NCPU symgo processes; each process loads the union of the packages its jobs need (one load of the
+    dependency closure per process instead of one per package)."""
     symgo = build_tools(ctx)
-    groups = {}
+    ctx.shard_walls = getattr(ctx, "shard_walls", [])
+    classes = {}
     for j in jobs:
-        groups.setdefault(j.group_key(), []).append(j)
+        classes.setdefault((j.load_dir, tuple(j.flags)), []).append(j)
     shards = []
-    nshards_total = max(1, min(NCPU, len(jobs)))
-    gi = 0
-    for key, gjobs in groups.items():
-        gdir = os.path.join(ctx.scratch, "g%d" % gi)
-        gi += 1
-        rep = write_overlay(ctx, gjobs[0], False, gdir)
-        ov = os.path.join(gdir, "overlay.json")
-        json.dump({"Replace": rep}, open(ov, "w"))
-        # number of shards for this group proportional to its share of the cost
-        share = sum(j.cost for j in gjobs) / max(1e-9, sum(j.cost for j in jobs))
-        n = max(1, min(len(gjobs), round(share * NCPU)))
-        gjobs_sorted = sorted(gjobs, key=lambda j: -j.cost)
+    total_cost = max(1e-9, sum(j.cost for j in jobs))
+    ci = 0
+    for (load_dir, flags), cjobs in classes.items():
+        share = sum(j.cost for j in cjobs) / total_cost
+        n = max(1, min(len(cjobs), round(share * NCPU * 1.5)))
+        # keep the jobs of one package together where possible: sort by (package cost desc, package) then greedy
         buckets = [[] for _ in range(n)]
         loads = [0.0] * n
-        for j in gjobs_sorted:
+        bypkg = {}
+        for j in cjobs:
+            bypkg.setdefault(j.group_key(), []).append(j)
+        units = []
+        avg = sum(j.cost for j in cjobs) / n
+        for key, pj in bypkg.items():
+            pj = sorted(pj, key=lambda j: -j.cost)
+            c = sum(j.cost for j in pj)
+            if c > 1.2 * avg and len(pj) > 1:
+                units.extend([[j] for j in pj])     # a heavy package is split job by job
+            else:
+                units.append(pj)
+        for u in sorted(units, key=lambda u: -sum(j.cost for j in u)):
             k = loads.index(min(loads))
-            buckets[k].append(j)
-            loads[k] += j.cost
+            buckets[k].extend(u)
+            loads[k] += sum(j.cost for j in u)
         for k, b in enumerate(buckets):
             if not b:
                 continue
+            gdir = os.path.join(ctx.scratch, "c%d_s%d" % (ci, k))
+            os.makedirs(gdir, exist_ok=True)
+            rep, pats, seen = {}, [], set()
+            for j in b:
+                gk = j.group_key()
+                if gk in seen:
+                    continue
+                seen.add(gk)
+                sub = os.path.join(gdir, "p%d" % len(seen))
+                rep.update(write_overlay(ctx, j, False, sub))
+                if j.pkg_pattern not in pats:
+                    pats.append(j.pkg_pattern)
+            ov = os.path.join(gdir, "overlay.json")
+            json.dump({"Replace": rep}, open(ov, "w"))
             dflt = 150 if ctx.tier == "quick" else 1500
             specs = [{"entry": j.import_path + "." + j.entry, "params": j.params, "witness": j.twin, "tag": j.tag,
                       "deadline_s": j.deadline or dflt} for j in b]
-            shards.append((b, (symgo, gdir, k, ov, b[0], specs, timeout)))
+            shards.append((b, (symgo, gdir, k, ov, load_dir, ",".join(pats), list(flags), specs, timeout)))
+        ci += 1
     with cf.ThreadPoolExecutor(max_workers=NCPU) as pool:
         futs = {pool.submit(run_shard, s[1]): s[0] for s in shards}
         for fut in cf.as_completed(futs):
             b = futs[fut]
             idx, rc, err, res, wall = fut.result()
+            ctx.shard_walls.append((round(wall, 1), b[0].rel, len(b)))
             for i, j in enumerate(b):
                 j.shard_rc, j.shard_err = rc, err
                 j.result = res[i] if res and i < len(res) else None
@@ -323,8 +349,12 @@ def run_property(ctx, mod):
     known = findings_all.get(pid, {})
     ctx.known = known
     jobs = mod.jobs(ctx)          # may build helper tools / generate code into ctx.scratch
+    t_prep = time.time() - ctx.t0
     # vacuity twins: modules mark them with twin=True
     run_jobs(ctx, jobs)
+    t_run = time.time() - ctx.t0 - t_prep
+    if os.environ.get("VERIF_TIMING"):
+        print("timing: prep %.1fs run %.1fs; slowest shards: %s" % (t_prep, t_run, sorted(ctx.shard_walls, reverse=True)[:8]))
     lines, violations, known_hits, inconclusive, spurious = [], [], [], [], 0
     replay_dir = os.path.join(VERIF, "evidence", "replay", pid)
     if os.path.isdir(replay_dir):
@@ -354,8 +384,9 @@ def run_property(ctx, mod):
             samples.append({"job": j.tag, "params": j.params, "outcome": s["outcome"], "witness": s["witness"][:24], "pc_size": s["pc_size"]})
         got_expected = False
         for v in r["violations"]:
-            key = (j.entry, v["kind"], v["id"]) if j.only_kf else (j.entry, json.dumps(j.params, sort_keys=True), v["kind"], v["id"])
-            if key in seen_v and len(seen_v) > 6:
+            is_kf = bool(j.only_kf and j.only_kf in known and (j.kf_ids is None or v["id"] in j.kf_ids))
+            key = (j.only_kf, j.rel, j.entry, v["kind"], v["id"]) if is_kf else (j.rel, j.entry, json.dumps(j.params, sort_keys=True), v["kind"], v["id"])
+            if key in seen_v and (is_kf or len(seen_v) > 6):
                 continue
             seen_v.add(key)
             ok, detail, wpath = replay(ctx, j, v, replay_dir)
@@ -363,7 +394,7 @@ def run_property(ctx, mod):
                 spurious += 1
                 inconclusive.append("%s: counterexample for %s did not reproduce natively (%s)" % (j.tag, v["id"], detail[-200:]))
                 continue
-            if j.only_kf:
+            if j.only_kf and j.only_kf in known and (j.kf_ids is None or v["id"] in j.kf_ids):
                 got_expected = True
                 if j.only_kf not in known_hits:
                     known_hits.append(j.only_kf)
